@@ -69,6 +69,28 @@ def is_pow2(fr):
     return fr > 0 and (fr.numerator & (fr.numerator - 1)) == 0 and (fr.denominator & (fr.denominator - 1)) == 0
 
 
+# admissible parameter values (dyadic): construction-time values and the values installed later by
+# setFactor / setParameterVector come from the same sets
+FACTORS = [Fraction(1, 2), Fraction(2), Fraction(3), Fraction(1, 4), Fraction(5, 2)]          # ScaledKernel factor (> 0); 1 = default
+OFFSETS = [Fraction(0), Fraction(1), Fraction(1, 2), Fraction(2), Fraction(3, 4), Fraction(1)]  # polynomial offset (>= 0)
+GAMMAS = [Fraction(1, 4), Fraction(1, 2), Fraction(1), Fraction(2), Fraction(1, 8), Fraction(3, 4)]   # Gaussian gamma (> 0)
+LOGS = [Fraction(0), Fraction(0), Fraction(1), Fraction(-1), Fraction(1, 2), Fraction(-2)]      # log-encoded weights / ARD gammas
+
+
+def new_params(r, ps, free_ard=False):
+    """a fresh admissible parameter vector for the parameter slots `ps` of a generated kernel.
+    ARD: gamma_i = exp(p_i); the dense diagonalMahalanobisDistanceSqr is an inner_prod (BLAS summation order), so the
+    bit-exact correspondence needs exactly representable gammas: p_i = 0 unless `free_ard` (oracle-only cases)"""
+    out = []
+    for q in ps:
+        if q == "off": out.append(r.choice(OFFSETS))
+        elif q == "gamma": out.append(r.choice(GAMMAS))
+        elif q == "int": out.append(Fraction(r.range(-1, 1)))
+        elif q == "logg" and not free_ard: out.append(Fraction(0))
+        else: out.append(r.choice(LOGS))
+    return out
+
+
 # ----------------------------------------------------------------------------- kernel generator
 class KGen:
     """random kernel expressions; returns (tokens, info) with
@@ -77,6 +99,8 @@ class KGen:
 
     def __init__(self, r):
         self.r = r
+        self.nscaled = 0      # number of ScaledKernel objects generated so far
+        self.scaled_bias = 0  # percent chance that a composite position holds a ScaledKernel (history cases)
         self.no_norm = 0      # > 0 below a ModelKernel: the mapped point may be the zero vector (0/0 in a normalised linear kernel)
 
     def leaf(self, dim, allow_exp=True):
@@ -84,24 +108,49 @@ class KGen:
         x = r.below(100)
         dotmax = dim * self.COORD * self.COORD
         if x < 22:
-            return ["lin"], dict(exact=True, M=Fraction(dotmax), f=0, kinds={"lin"}, depth=0)
+            return ["lin"], dict(exact=True, M=Fraction(dotmax), f=0, kinds={"lin"}, depth=0, ps=[])
         if x < 45:
             d = r.choice([1, 1, 2, 2, 3, 4])
-            c = r.choice([Fraction(0), Fraction(1), Fraction(1, 2), Fraction(2), Fraction(3, 4), Fraction(1)])
-            return ["poly", str(d), dy(c)], dict(exact=True, M=(dotmax + c) ** d, f=fbits(c) * d, kinds={"poly"}, depth=0)
+            c = r.choice(OFFSETS)
+            # bounds hold for every offset a later setParameterVector may install (max 2, 2 fraction bits)
+            return ["poly", str(d), dy(c)], dict(exact=True, M=(dotmax + 2) ** d, f=2 * d, kinds={"poly"}, depth=0, ps=["off"])
         if x < 60:
             n = r.choice([0, 1, 1, 2, 2, 3, 4])
-            return ["mono", str(n)], dict(exact=True, M=Fraction(dotmax) ** n, f=0, kinds={"mono"}, depth=0)
+            return ["mono", str(n)], dict(exact=True, M=Fraction(dotmax) ** n, f=0, kinds={"mono"}, depth=0, ps=[])
         if not allow_exp:
             return self.leaf(dim, allow_exp)
         if x < 82:
-            g = r.choice([Fraction(1, 4), Fraction(1, 2), Fraction(1), Fraction(2), Fraction(1, 8), Fraction(3, 4)])
-            return ["gauss", dy(g)], dict(exact=False, M=Fraction(1), f=0, kinds={"gauss"}, depth=0)
+            g = r.choice(GAMMAS)
+            return ["gauss", dy(g)], dict(exact=False, M=Fraction(1), f=0, kinds={"gauss"}, depth=0, ps=["gamma"])
         gs = [r.choice([Fraction(1, 4), Fraction(1, 2), Fraction(1), Fraction(2), Fraction(3, 8)]) for _ in range(dim)]
-        return ["ard", str(dim)] + [dy(g) for g in gs], dict(exact=False, M=Fraction(1), f=0, kinds={"ard"}, depth=0)
+        return ["ard", str(dim)] + [dy(g) for g in gs], dict(exact=False, M=Fraction(1), f=0, kinds={"ard"}, depth=0, ps=["logg"] * dim)
+
+    def mk_scaled(self, dim, depth):
+        """ScaledKernel; factor 1 = the constructor default (`ScaledKernel<> k(&base)`), the factor is typically
+        installed later by setFactor (NormalizeKernelUnitVariance): bounds hold for every factor of FACTORS"""
+        r = self.r
+        s = Fraction(1) if r.chance(1, 3) else r.choice(FACTORS)
+        self.nscaled += 1                    # pre-order numbering of the ScaledKernel objects (op setfactor)
+        t, i = self.gen(dim, depth - 1)
+        return ["scaled", dy(s)] + t, dict(exact=i["exact"], M=i["M"] * max(FACTORS), f=i["f"] + 2, kinds=i["kinds"] | {"scaled"},
+                                          depth=i["depth"] + 1, ps=i["ps"])
+
+    def mk_prod(self, dim, depth):
+        r = self.r
+        n = r.choice([1, 2, 2, 3])
+        subs = [self.gen(dim, depth - 1) for _ in range(n)]
+        toks = ["prod", str(n)]
+        M, f = Fraction(1), 0
+        for t, i in subs:
+            toks += t; M *= i["M"]; f += i["f"]
+        return toks, dict(exact=all(i["exact"] for _, i in subs), M=M, f=f,
+                          kinds=set().union(*[i["kinds"] for _, i in subs]) | {"prod"}, depth=1 + max(i["depth"] for _, i in subs),
+                          ps=[q for _, i in subs for q in i["ps"]])
 
     def gen(self, dim, depth):
         r = self.r
+        if depth > 0 and self.scaled_bias and r.chance(self.scaled_bias, 100):
+            return self.mk_scaled(dim, depth)
         if depth == 0 or r.chance(1, 4):
             return self.leaf(dim)
         x = r.below(100)
@@ -109,11 +158,9 @@ class KGen:
             t, i = self.gen(dim, depth - 1)
             if "model" in i["kinds"]:      # A x + b may be the zero vector: k(x,x) = 0, the normalised kernel is 0/0 there
                 return t, i
-            return ["norm"] + t, dict(exact=False, M=Fraction(1), f=0, kinds=i["kinds"] | {"norm"}, depth=i["depth"] + 1)
+            return ["norm"] + t, dict(exact=False, M=Fraction(1), f=0, kinds=i["kinds"] | {"norm"}, depth=i["depth"] + 1, ps=i["ps"])
         if x < 34:
-            s = r.choice([Fraction(1, 2), Fraction(2), Fraction(3), Fraction(1, 4), Fraction(1), Fraction(5, 2)])
-            t, i = self.gen(dim, depth - 1)
-            return ["scaled", dy(s)] + t, dict(exact=i["exact"], M=i["M"] * s, f=i["f"] + fbits(s), kinds=i["kinds"] | {"scaled"}, depth=i["depth"] + 1)
+            return self.mk_scaled(dim, depth)
         if x < 56:
             n = r.choice([1, 2, 2, 3, 3, 4])
             subs = [self.gen(dim, depth - 1) for _ in range(n)]
@@ -128,7 +175,7 @@ class KGen:
                 for t, _ in subs: toks += t
                 k = n.bit_length() - 1
                 return toks, dict(exact=ex, M=max(i["M"] for _, i in subs), f=max(i["f"] for _, i in subs) + k,
-                                  kinds=kinds | {"wsump"}, depth=dep)
+                                  kinds=kinds | {"wsump"}, depth=dep, ps=["logw"] * (n - 1))
             ws = [Fraction(1)] + [r.choice([Fraction(1), Fraction(2), Fraction(1, 2), Fraction(3), Fraction(1), Fraction(5)]) for _ in range(n - 1)]
             s = sum(ws)
             ex = is_pow2(s) and all(i["exact"] for _, i in subs)
@@ -137,16 +184,9 @@ class KGen:
             k = fbits(1 / s) if is_pow2(s) else 0
             M = sum(w * i["M"] for w, (_, i) in zip(ws, subs)) / s
             f = max(i["f"] + fbits(w) for w, (_, i) in zip(ws, subs)) + max(k, 0)
-            return toks, dict(exact=ex, M=M, f=f, kinds=kinds | {"wsum"}, depth=dep)
+            return toks, dict(exact=ex, M=M, f=f, kinds=kinds | {"wsum"}, depth=dep, ps=["logw"] * (n - 1))
         if x < 78:
-            n = r.choice([1, 2, 2, 3])
-            subs = [self.gen(dim, depth - 1) for _ in range(n)]
-            toks = ["prod", str(n)]
-            M, f = Fraction(1), 0
-            for t, i in subs:
-                toks += t; M *= i["M"]; f += i["f"]
-            return toks, dict(exact=all(i["exact"] for _, i in subs), M=M, f=f,
-                              kinds=set().union(*[i["kinds"] for _, i in subs]) | {"prod"}, depth=1 + max(i["depth"] for _, i in subs))
+            return self.mk_prod(dim, depth)
         if x < 86:
             # ModelKernel over a LinearModel x -> A x + b (small integer matrix)
             rdim = r.choice([1, 2, 3])
@@ -159,7 +199,8 @@ class KGen:
             self.no_norm -= 1
             self.COORD = save
             toks = ["model", str(rdim), str(dim)] + [str(v) for row in A for v in row] + [str(v) for v in bvec] + t
-            return toks, dict(exact=i["exact"], M=i["M"], f=i["f"], kinds=i["kinds"] | {"model"}, depth=i["depth"] + 1)
+            return toks, dict(exact=i["exact"], M=i["M"], f=i["f"], kinds=i["kinds"] | {"model"}, depth=i["depth"] + 1,
+                              ps=i["ps"] + ["int"] * (rdim * dim + rdim))
         if x < 92 and dim >= 2:
             # the real SubrangeKernel class (weighted sum of sub-range wrappers, weights via setParameterVector)
             n = r.choice([1, 2, 2, 3])
@@ -172,13 +213,14 @@ class KGen:
                 toks += [str(a), str(b)] + t; subs.append(i)
             ex = all(p == 0 for p in ps) and is_pow2(n) and all(i["exact"] for i in subs)
             return toks, dict(exact=ex, M=max(i["M"] for i in subs), f=max(i["f"] for i in subs) + n.bit_length(),
-                              kinds=set().union(*[i["kinds"] for i in subs]) | {"subk", "sub"}, depth=1 + max(i["depth"] for i in subs))
+                              kinds=set().union(*[i["kinds"] for i in subs]) | {"subk", "sub"}, depth=1 + max(i["depth"] for i in subs),
+                              ps=["logw"] * (n - 1))
         if dim >= 2:
             a = r.below(dim - 1); b = r.range(a + 1, dim)
             if a == 0 and b == dim: a = 1 if dim > 1 and r.chance(1, 2) else 0
             if b <= a: b = a + 1
             t, i = self.gen(b - a, depth - 1)
-            return ["sub", str(a), str(b)] + t, dict(exact=i["exact"], M=i["M"], f=i["f"], kinds=i["kinds"] | {"sub"}, depth=i["depth"] + 1)
+            return ["sub", str(a), str(b)] + t, dict(exact=i["exact"], M=i["M"], f=i["f"], kinds=i["kinds"] | {"sub"}, depth=i["depth"] + 1, ps=i["ps"])
         return self.leaf(dim)
 
 
@@ -221,6 +263,61 @@ def gen_points(r, n, dim, nonzero):
     if n >= 3 and r.chance(1, 3):
         pts[n - 1] = list(pts[0])          # duplicate point (rank-deficient Gram matrix)
     return pts
+
+
+def observe_ops(r, n, reg):
+    """observations of the current object: flags, diagonal, feature distances (single + batch), blocks, Gram matrix"""
+    i = r.below(n)
+    ops = ["flags", f"single {i} {i}", f"single {r.below(n)} {r.below(n)}", f"fdist {r.below(n)} {r.below(n)}"]
+    a = r.below(n); b = r.range(a + 1, n); c = r.below(n); d = r.range(c + 1, n)
+    ops.append(f"fdistb {a} {b} {c} {d}")
+    if r.chance(1, 2): ops += [f"block {a} {b} {c} {d}", f"sblock {a} {b} {c} {d}"]
+    if r.chance(1, 2): ops.append(f"gram {dy(reg)} " + " ".join(map(str, rand_partition(r, n))))
+    return ops
+
+
+def history_ops(r, toks, info, n, reg, steps, free_ard=False):
+    """a history of in-place reconfigurations (ScaledKernel::setFactor on any ScaledKernel object of the expression,
+    setParameterVector with a fresh admissible vector), each followed by observations.
+    Returns (ops, inexact): setParameterVector goes through exp for log-encoded slots -> bit mode only"""
+    ops, inexact = [], False
+    nsc = toks.count("scaled")
+    for _ in range(steps):
+        if nsc and r.chance(2, 3):
+            ops.append(f"setfactor {r.below(nsc)} {dy(Fraction(1) if r.chance(1, 6) else r.choice(FACTORS))}")
+        else:
+            ops.append("setparams " + " ".join(dy(v) for v in new_params(r, info["ps"], free_ard)))
+            inexact = inexact or any(q in ("logw", "logg") for q in info["ps"])
+        ops[-1] = ops[-1].strip()
+        ops += observe_ops(r, n, reg)
+    return ops, inexact
+
+
+def gen_history_case(r, maxn):
+    """object histories: a kernel whose composite positions often hold ScaledKernel objects (constructed with the default
+    factor in a third of the cases), reconfigured 2-4 times, observed after every step"""
+    dim = r.choice([1, 2, 2, 3]); n = r.range(2, maxn)
+    kg = KGen(r); kg.scaled_bias = 40
+    top = r.below(3)
+    depth = r.choice([1, 2, 2, 3])
+    if top == 0: toks, info = kg.mk_scaled(dim, depth)
+    elif top == 1: toks, info = kg.mk_prod(dim, depth)
+    else: toks, info = kg.gen(dim, depth)
+    pts = gen_points(r, n, dim, "norm" in info["kinds"])
+    reg = r.choice([Fraction(0), Fraction(0), Fraction(1, 2)])
+    ops = ["kern " + " ".join(toks), f"pts {n} {dim} " + " ".join(str(v) for p in pts for v in p)]
+    ops += observe_ops(r, n, reg)
+    # ARD kernels with arbitrary gammas: the model is not bit-exact there (BLAS order) -> such histories are run on the real
+    # code alone, judged by the in-harness oracle (claims, symmetry, block = single, Gram, eigenvalues, finite differences)
+    free_ard = "logg" in info["ps"] and r.chance(1, 2)
+    hist, inexact = history_ops(r, toks, info, n, reg, steps=r.range(2, 4), free_ard=free_ard)
+    ops += hist
+    ops.append("unitvar " + " ".join(map(str, rand_partition(r, n))))
+    a = r.below(n); b = r.range(a + 1, min(n, a + 3)); c = r.below(n); d = r.range(c + 1, min(n, c + 3))
+    ops.append(f"dcheck {a} {b} {c} {d} " + " ".join(str(r.range(-2, 2)) for _ in range((b - a) * (d - c))))
+    if inexact: info = dict(info, exact=False)
+    info = dict(info, n=n, dim=dim, parts=0, exact_case=exact_ok(info), kinds=info["kinds"] | {"history"}, oracle_only=free_ard)
+    return ops, info
 
 
 def gen_case(ctx, r, maxn, all_partitions=False):
@@ -266,6 +363,13 @@ def gen_case(ctx, r, maxn, all_partitions=False):
         psops.append(f"ps gram 0 " + " ".join(map(str, rand_partition(r, m))))
         info = dict(info, f=info["f"] + 4, kinds=info["kinds"] | {"pointset"})
         ops += psops
+    # the object is reconfigured in place and everything is observed again on the SAME object
+    a = r.below(n); b = r.range(a + 1, n); c = r.below(n); d = r.range(c + 1, n)
+    ops += ["flags", f"fdistb {a} {b} {c} {d}"]
+    hist, inexact = history_ops(r, toks, info, n, reg, steps=r.range(0, 2))
+    ops += hist
+    if inexact: info = dict(info, exact=False)
+    ops.append("unitvar " + " ".join(map(str, rand_partition(r, n))))
     # numerical derivative oracle on the real code (finite differences); last, because it resets parameters
     a = r.below(n); b = r.range(a + 1, min(n, a + 3)); c = r.below(n); d = r.range(c + 1, min(n, c + 3))
     ops.append(f"dcheck {a} {b} {c} {d} " + " ".join(str(r.range(-2, 2)) for _ in range((b - a) * (d - c))))
@@ -303,15 +407,25 @@ def gen_deriv_case(r, maxn):
         toks = ["scaled", dy(r.choice([Fraction(1, 2), Fraction(2), Fraction(3), Fraction(1, 4)]))] + toks
     pts = gen_points(r, n, dim, False)
     ops = ["kern " + " ".join(toks), f"pts {n} {dim} " + " ".join(str(v) for p in pts for v in p)]
-    for _ in range(r.range(2, 4)):
-        if "gauss" in toks:
-            a = r.below(n); b = a + 1; c = r.below(n); d = c + 1
+    def deriv_ops():
+        for _ in range(r.range(2, 4)):
+            if "gauss" in toks:
+                a = r.below(n); b = a + 1; c = r.below(n); d = c + 1
+            else:
+                a = r.below(n); b = r.range(a + 1, n); c = r.below(n); d = r.range(c + 1, n)
+            co = " ".join(dy(r.choice([Fraction(v) for v in (-3, -2, -1, 0, 1, 2, 3)] + [Fraction(1, 2), Fraction(-3, 4)])) for _ in range((b - a) * (d - c)))
+            ops.append(f"pderiv {a} {b} {c} {d} {co}")
+            if not wsum_case:
+                ops.append(f"ideriv {a} {b} {c} {d} {co}")
+    deriv_ops()
+    if not wsum_case and "lin" not in toks and r.chance(1, 2):
+        # the derivative code must follow an in-place reconfiguration (live factor / live parameters)
+        if toks[0] == "scaled" and r.chance(1, 2):
+            ops.append(f"setfactor 0 {dy(r.choice(FACTORS))}")
         else:
-            a = r.below(n); b = r.range(a + 1, n); c = r.below(n); d = r.range(c + 1, n)
-        co = " ".join(dy(r.choice([Fraction(v) for v in (-3, -2, -1, 0, 1, 2, 3)] + [Fraction(1, 2), Fraction(-3, 4)])) for _ in range((b - a) * (d - c)))
-        ops.append(f"pderiv {a} {b} {c} {d} {co}")
-        if not wsum_case:
-            ops.append(f"ideriv {a} {b} {c} {d} {co}")
+            slots = ["off"] if "poly" in toks else ["gamma"] if "gauss" in toks else ["logg"] * dim
+            ops.append("setparams " + " ".join(dy(v) for v in new_params(r, slots)))
+        deriv_ops()
     a = r.below(n); b = r.range(a + 1, n); c = r.below(n); d = r.range(c + 1, n)
     ops.append(f"dcheck {a} {b} {c} {d} " + " ".join(str(r.range(-2, 2)) for _ in range((b - a) * (d - c))))
     return ops, dict(exact=exact, exact_case=exact, kinds=set(kinds_of(ops)) | {"deriv"}, depth=0, n=n, dim=dim, parts=0, M=Fraction(1), f=0)
@@ -425,6 +539,7 @@ def run(ctx):
     r = ctx.rng.fork("c05")
     ncases, ndisc, maxn = (400, 40, 7) if ctx.quick else (2500, 200, 10)
     nderiv = 80 if ctx.quick else 500
+    nhist = 150 if ctx.quick else 1000
     cases = []       # (ops, info)
     for ops, mode in load_corpus():
         cases.append((ops, dict(exact_case=(mode == "exact"), kinds=set(kinds_of(ops)), depth=-1, n=0, dim=0, parts=0, corpus=True)))
@@ -435,6 +550,8 @@ def run(ctx):
         cases.append(gen_discrete_case(r))
     for _ in range(nderiv):
         cases.append(gen_deriv_case(r, maxn))
+    for _ in range(nhist):
+        cases.append(gen_history_case(r, maxn))
     if not ctx.quick:
         # partition independence: ALL ordered batch partitions of n points (n <= 12)
         for n in (6, 8, 10, 12):
@@ -467,6 +584,18 @@ def run(ctx):
     ctx.sample({"ops": cases[len(cases) // 3][0][:8]})
     # SHARK_PARALLEL_FOR in the Gram assembly stays parallel (2 threads), but without 16 spinning threads
     env = {"OMP_NUM_THREADS": "2" if ctx.quick else "3", "OMP_WAIT_POLICY": "passive"}
+    oonly = [o for o, i in cases if i.get("oracle_only")]
+    cases = [(o, i) for o, i in cases if not i.get("oracle_only")]
+    ctx.cov["cases_oracle_only"] = len(oonly)
+    if oonly:
+        # one harness process for all of them (the session is reset by every `kern` line); on failure case by case
+        e = dict(os.environ); e.setdefault("ASAN_OPTIONS", "detect_leaks=0"); e.update(env)
+        import subprocess
+        p = subprocess.run([exe, "dense"], input="\n".join(l for o in oonly for l in o) + "\n", capture_output=True, text=True, errors="replace", env=e, timeout=600)
+        if p.returncode != 0 or "!oracle" in p.stdout:
+            core.oracle_only(ctx, "K-C05[dense,oracle-only histories]", oonly, [exe, "dense"], classify, env=env)
+        else:
+            ctx.log(f"K-C05[dense,oracle-only histories]: {len(oonly)} cases pass the in-harness oracle")
     for inp in ("dense", "sparse"):
         sel = [(o, i) for o, i in cases if inp == "dense" or not (set(i["kinds"]) & SPARSE_UNSUPPORTED)]
         if inp == "sparse":      # weightedInputDerivative needs a dense batch type
